@@ -567,6 +567,12 @@ def _c05_extra(ctx):
             "what": "a response served concurrently differs from the one the same request gets when served alone",
             "divergence": div, "unguarded_shared_writes_in_footprint": unguarded, "summary": summary, "seed": ctx["seed"], "tier": ctx["tier"],
             "how_to_replay": how, "ops": ["NEW noop"]})]
+    if "fatal error: concurrent map" in p.stderr or "WARNING: DATA RACE" in p.stderr:
+        # the Go runtime's own detector (unsynchronised map access) aborted the process before/without a race report
+        return [ctx["write_replay"](ctx["pid"], "race", {
+            "what": "the Go runtime aborted the concurrent run: unsynchronised access to shared framework state",
+            "race_report": p.stderr[:20000].split("\n"), "unguarded_shared_writes_in_footprint": unguarded,
+            "summary": summary, "seed": ctx["seed"], "tier": ctx["tier"], "how_to_replay": how, "ops": ["NEW noop"]})]
     print("BROKEN (machinery, not a verdict): race binary exited %d: %s %s" % (p.returncode, p.stdout[-1500:], p.stderr[-1500:]))
     sys.exit(2)
 
@@ -792,6 +798,8 @@ _router_entry("C02",
     lambda s, R, M: rp.cmp_dispatch(s, R, M, params=True),
     lambda op, r, m, n: r.startswith("h ") and "=" in (m.split()[3] if len(m.split()) > 3 else ""),
     "case = (route set, request); non-trivial = dispatched to a route whose winning form has at least one bind")
+PROPS["C02"]["props_modules"] = ["Flamego.Props.C02", "Flamego.Proofs.Params", "Flamego.Proofs.ParamsAdd", "Flamego.Proofs.ParamsUrl", "Flamego.Proofs.ParamsRegex"]
+PROPS["C02"]["assumptions"] = PROPS["C02"]["assumptions"] + ["EngineLaws (Proofs/ParamsRegex.lean): soundness of a reported match of an assembled segment pattern — a hypothesis of regex_values_match / roundtrip_regex, never postulated; false for context-sensitive assertions such as \\b, \\B (finding F26)"]
 _router_entry("C07",
     "Lean 4 theorems (serve is a total function with exactly one outcome; index-level matcher never slices out of range) + "
     "differential correspondence on arbitrary byte paths, methods and headers with recover() around ServeHTTP",
@@ -811,6 +819,7 @@ _router_entry("C08",
     lambda s, R, M: rp.cmp_dispatch(s, R, M, setup=True),
     lambda op, r, m, n: n >= 1,
     "case = (history of registrations, request after it); non-trivial = at least one registration was accepted; the distribution counts accepted and rejected registrations")
+PROPS["C08"]["props_modules"] = ["Flamego.Props.C08", "Flamego.Proofs.Register"]
 _router_entry("C09",
     "Lean 4 theorems over the header-constraint table and leaf eligibility + differential correspondence with Headers() re-specification and header-carrying requests",
     "Constraints are modelled per registration handle, consulted by every leaf of it (both forms, every method); theorems cover "
@@ -820,12 +829,19 @@ _router_entry("C09",
     "case = (route set with constraints, request); non-trivial = the request carries at least one header field")
 _router_entry("C10",
     "Lean 4 theorems (fast-path table invariant ⇒ serve = serveTreeOnly) + differential correspondence Flame.ServeHTTP vs route.Tree.Match on an identically populated tree vs the model",
-    "The shortcut table is part of the router model; theorem: table miss ⇒ tree; invariant-based unobservability; the correspondence "
+    "The shortcut table is part of the router model. `shortcut_unobservable`: for every engine, every history of registrations "
+    "(any method lists, succeeding or failing), Headers() and Name() calls from newRouter() — routes as the parser produces them, "
+    "one handle per registration — and every request (any bytes as path, any headers), serve (table first) and serveTreeOnly "
+    "return the same outcome (same leaf, same parameters, or not-found); proved from a router invariant tying every table entry "
+    "to a static path of the method's tree spelling the key (Proofs/ShortcutTree, Proofs/Shortcut). `statics_keys_plain` and "
+    "corollaries: keys are route texts without '?', with exactly one leading '/'; `distinct_handles_needed` shows the "
+    "one-handle-per-registration guard cannot be dropped. The correspondence "
     "runs every request against the real Flame and a shadow tree populated through the export, in histories interleaving "
     "registrations, Headers() and requests.",
     lambda s, R, M: rp.cmp_dispatch(s, R, M, params=True),
     lambda op, r, m, n: r.startswith("h "),
     "case = (history, request); non-trivial = dispatched (to a static or shadowing dynamic route)")
+PROPS["C10"]["props_modules"] = ["Flamego.Props.C10", "Flamego.Proofs.Shortcut", "Flamego.Proofs.ShortcutTree"]
 _router_entry("C12",
     "Lean 4 theorems over skeleton/replaceAll/name table + differential correspondence of Router.URLPath / Context.URLPath / Leaf.URLPath",
     "URL building is modelled as skeleton + a model of strings.Replacer; name-table panics are theorems; the correspondence builds "
